@@ -24,6 +24,10 @@ UPDATES = [
     {'in_math_mode': True, 'math_mode_delimiter': '\\('},
     {'math_mode_delimiter': '$$'},
     {'math_mode_delimiter': None},
+    # the same request with the keywords in the other order (a call's keyword order must not matter)
+    {'math_mode_delimiter': '$', 'in_math_mode': True},
+    {'math_mode_delimiter': '\\[', 'in_math_mode': True},
+    {'latex_display_math_delimiters': [('$$', '$$')], 'latex_inline_math_delimiters': [('$', '$')], 'in_math_mode': False},
     {'latex_group_delimiters': [('{', '}'), ('[', ']')]},
     {'latex_inline_math_delimiters': [('$', '!')]},
     {'latex_inline_math_delimiters': [('$', '$'), ('\\(', '\\)')]},
